@@ -362,6 +362,8 @@ impl<R: Read> Reader<R> {
             STRIPPED_CPIO_MAGIC_NUMBER => {
                 // char    fx[8];
                 let file_index = read_hex_u32(&mut inner)?;
+                #[cfg(feature = "verif-hooks")]
+                crate::verif_hooks::hit("payload.stripped_entry_read");
                 RpmPayloadEntry::Stripped(file_index)
             }
             _ => {
